@@ -93,4 +93,36 @@ mod proofs {
         assert!(w32(8, (ntp >> 32) as u32) && w32(12, ntp as u32));
         assert!(w32(16, rtp) && w32(20, pc) && w32(24, oc));
     }
+
+    /// C15 gate, complete over all 32 formats x both feedback kinds x the five FCI types (header-only packets, 12 bytes,
+    /// SSRCs symbolic): parse_fci::<F>() succeeds only if the packet kind matches F's kind and the format field is F's
+    /// format. This also closes A-bitops (the two FciFeedbackPacketType operator impls) on every value the crate uses.
+    #[kani::proof]
+    fn fci_gate() {
+        let mut b: [u8; 12] = kani::any();
+        let fmt: u8 = kani::any();
+        kani::assume(fmt <= 31);
+        let transport: bool = kani::any();
+        b[0] = 0x80 | fmt;
+        b[1] = if transport { 205 } else { 206 };
+        b[2] = 0;
+        b[3] = 2;
+        if transport {
+            let p = TransportFeedback::parse(&b).unwrap();
+            assert!(p.parse_fci::<Nack>().is_ok() == (fmt == 1));
+            assert!(p.parse_fci::<Pli>().is_err());
+            assert!(p.parse_fci::<Sli>().is_err());
+            assert!(p.parse_fci::<Rpsi>().is_err());
+            assert!(p.parse_fci::<Fir>().is_err());
+        } else {
+            let p = PayloadFeedback::parse(&b).unwrap();
+            assert!(p.parse_fci::<Nack>().is_err());
+            assert!(p.parse_fci::<Pli>().is_ok() == (fmt == 1));
+            assert!(p.parse_fci::<Sli>().is_ok() == (fmt == 2));
+            // an RPSI needs at least its two header octets: an empty FCI is rejected whatever the format
+            assert!(p.parse_fci::<Rpsi>().is_err());
+            assert!(p.parse_fci::<Fir>().is_ok() == (fmt == 4));
+        }
+    }
 }
+
